@@ -698,11 +698,11 @@ def run(tier, is_known):
         ]
     else:
         plan = [
-            ("lan", "core", 1, (0, 0), 1, 4, 30000, 45),
-            ("lan", "conn", 2, (0, 0), 1, 3, 30000, 45),
-            ("lan", "data", 2, (0, 0), 1, 5, 30000, 45),
-            ("routed", "mix", 2, (0, 0), 1, 4, 30000, 45),
-            ("lan", "conn", 0, (0, 0), 1, 3, 30000, 30),  # a session limit of 0: always at capacity
+            ("lan", "core", 1, (0, 0), 1, 4, 30000, 240),
+            ("lan", "conn", 2, (0, 0), 1, 3, 30000, 240),
+            ("lan", "data", 2, (0, 0), 1, 5, 30000, 240),
+            ("routed", "mix", 2, (0, 0), 1, 4, 30000, 240),
+            ("lan", "conn", 0, (0, 0), 1, 3, 30000, 240),  # a session limit of 0: always at capacity
         ]
     viols = []
     per = []
